@@ -15,7 +15,7 @@ CHECKS = {
  "C01": lvl("exploration", "runtime invariant monitor: quiescent ledger equality (bank balance = sum of reserves + donations + odd units + locked LP) after every message of a hostile seeded workload",
    "After every generated message (accepted, rejected or aborted) on 6+ pools sharing denoms the monitor recomputes the sum of reserves per denom from the Pools query and compares it with the pool manager's real bank balance; the excess must equal exactly what the harness itself donated plus odd-unit residues, and LP held must equal the minimum locked at first funding.", "DESIGN.md §4 C01"),
  "C02": lvl("exploration", "runtime monitors on every deposit/withdrawal transition with exact big-integer share bounds (x*y, exact Curve D) + forked redemption probes",
-   "Every LP supply change is attributed to a deposit/withdrawal of that pool; every deposit is checked against the exact proportional-share bound (constant product: cross-multiplied; stableswap: exact D growth with the statement's 2-unit granularity); every withdrawal against reserve x burned / supply; redemption of random LP amounts is tried on forks.", "DESIGN.md §4 C02"),
+   "Every LP supply change is attributed to a deposit/withdrawal of that pool; every deposit is checked against the exact proportional-share bound (constant product: cross-multiplied; stableswap: exact D growth with the statement's 2-unit granularity); every withdrawal against reserve x burned / supply; redemption of random LP amounts is tried on forks; a forked drain-and-reseed scenario (every holder leaves, somebody deposits again) on existing and fresh high-fee pools is judged message by message with the same clauses.", "DESIGN.md §4 C02"),
  "C03": lvl("exploration", "runtime monitor: exact invariant comparison (big-integer x*y and Curve D) on every executed hop + forked there-and-back trades",
    "Every hop of every swap, route and single-asset deposit is judged with exact arithmetic from the reserves before/after; forked round trips (1-3 pools, 1-4 return chunks) compare the trader's balance.", "DESIGN.md §4 C03"),
  "C04": lvl("exploration", "offline checker over the recorded bank-event log: per-message slice vs expected multiset, reserve identity, fee = floor(G x share)",
@@ -25,7 +25,7 @@ CHECKS = {
  "C06": lvl("exploration", "reference-model monitor: independent per-epoch weight/claim ledger vs the bank delta of every claim; cumulative per-farm bound",
    "An independent ledger (fed only by the observed effect of position operations, never by the claim path) bounds every claim's payment by the user's weight share of the emissions of the claimed epochs; refusals as 'farm exhausted' are checked against affordability; claimed <= rate x elapsed epochs after every message.", "DESIGN.md §4 C06"),
  "C07": lvl("exploration", "differential monitors: Rewards query vs forked Claim; ledger share equality; one frozen future replayed under three claim schedules",
-   "The Rewards query on the forked pre-state must equal each claim's bank delta; each payment must equal the sum of floored weight shares per farm-epoch; a frozen future replayed from one snapshot under three claim schedules must pay the same totals and leave other users' pending rewards identical.", "DESIGN.md §4 C07"),
+   "The Rewards query on the forked pre-state must equal each claim's bank delta; each payment must equal the sum of floored weight shares per farm-epoch; a frozen future replayed from one snapshot under three claim schedules must pay the same totals and leave other users' pending rewards identical; a forked many-farms scenario (13 farms on one LP token) is judged by the same clauses.", "DESIGN.md §4 C07"),
  "C08": lvl("exploration", "runtime monitors on every position message (bank-event slice, raw position view) + forked all-senders x boundary-second probes",
    "On real traffic every changed position must belong to the sender, partial closes must conserve the owner's recorded LP and normal withdrawals must pay exactly the recorded amount once; forked probes attempt every action on an existing position from every account and withdraw at unlock-1s/unlock/unlock+1s.", "DESIGN.md §4 C08"),
  "C09": lvl("exploration", "offline checker over the bank-event slice of every emergency withdrawal + time-forked series, against an exact rational penalty oracle",
@@ -33,23 +33,23 @@ CHECKS = {
  "C10": lvl("exploration", "runtime invariant monitor over all weight snapshots (raw storage) + exact rational curve oracle + forked sweeps",
    "After every message total weight >= sum of users' weights for the running and the pending epoch (equal while no pieces), no weight without open position; every fresh position weight is compared with the exact Lagrange curve, its bounds and pairwise monotonicity.", "DESIGN.md §4 C10"),
  "C11": lvl("exploration", "offline checker over the bank-event slice of every farm action + forked exact-payment probes + quiescent limit invariant",
-   "Every accepted farm creation/expansion/close must move exactly the expected tokens (fee to the collector, refunds to the right owners, remainders of auto-closed farms) and record the expected farm; exact payments are probed per fee configuration; unexpired farms per LP token never exceed the limit.", "DESIGN.md §4 C11"),
+   "Every accepted farm creation/expansion/close must move exactly the expected tokens (fee to the collector, refunds to the right owners, remainders of auto-closed farms) and record the expected farm; exact payments are probed per fee configuration; unexpired farms per LP token never exceed the limit (also with the limit raised beyond the lister's page size, and after a farm claimed down to exactly zero has been closed); transfers are compared netted per party.", "DESIGN.md §4 C11"),
  "C12": lvl("exploration", "differential monitor: quote on the forked pre-state vs execution of the same trade",
-   "For every generated swap and simple route the Simulation / SimulateSwapOperations answer on the forked pre-state is compared with the executed result (return, all fee figures, receiver balance); ReverseSimulation+1 is checked on constant-product pools.", "DESIGN.md §4 C12"),
+   "For every generated swap and simple route the Simulation / SimulateSwapOperations answer on the forked pre-state is compared with the executed result (return, all fee figures, receiver balance); routes are re-executed under several minimum_receive / receiver settings and must deliver the quoted amount each time; ReverseSimulation+1 is checked on constant-product pools.", "DESIGN.md §4 C12"),
  "C13": lvl("exploration", "independent exact-rational predicate vs the observed accept/reject decision, with boundary bands; forked monotonicity probes; state equality on rejection",
-   "Each protection's decision on real traffic is compared with an independently evaluated predicate outside a rounding band; forked probes test exact-proportion deposits and monotonicity in the tolerance; every refused trade must leave the chain state identical.", "DESIGN.md §4 C13"),
+   "Each protection's decision on real traffic is compared with an independently evaluated predicate outside a rounding band; forked probes test exact-proportion deposits and monotonicity in the tolerance; every executed route is re-run with minimum_receive = delivered (must execute) and delivered + 1 (must fail as a whole); every refused trade must leave the chain state identical.", "DESIGN.md §4 C13"),
  "C14": lvl("fault_enumeration", "forked equivalence run (single-asset deposit vs manual two-step) + failure injected at each internal chain call + buffer-key lookup after every message",
    "Every single-asset deposit is replayed from the same state as swap-half-then-deposit and all effects compared; for sampled accepted ones a failure is injected at each of its internal chain calls (contract entries, replies, bank, token factory) and the state must be bit-identical; the temporary buffer key is looked up after every message.", "DESIGN.md §4 C14"),
- "C15": lvl("exploration", "complete role x message x ownership-state x funds matrix, every cell executed on a fork and compared with the table derived from the statement (exhaustive)",
-   "All 2660 cells of the privileged-action matrix are executed on forks of one prepared state; decisions must equal the statement's table, rejected cells must leave the chain state identical and accepted cells may only change the storage the message names.", "DESIGN.md §4 C15"),
+ "C15": lvl("exploration", "role x message x ownership-history x funds matrix executed completely on forks of up to 288 prepared states and compared with the table derived from the statement",
+   "Every cell of the privileged-action matrix (47 message variants x 13 sender roles x 9 ownership histories x 2 funds settings) is executed on forks of prepared states (position open/closed/unlocked x farm running/not started/ended/expired x overlapping roles x re-configured delegate x 3 configurations: 288 in the thorough tier, a covering sample of ~27 in quick); decisions must equal authorised-by-the-statement AND no funds AND valid-in-this-state, rejected cells must leave the chain state identical and accepted cells may only change the storage the message names.", "DESIGN.md §4 C15"),
  "C16": lvl("exploration", "independent well-formedness/payment predicate vs every creation attempt; forked payment matrix; first-seen immutability invariant after every message",
    "Every creation attempt is compared with an independent predicate; a forked matrix of token-factory fee configurations x fund variants checks accept <=> exact and the bank slice; identifiers/LP denoms stay distinct and creation-time parameters unchanged through all histories.", "DESIGN.md §4 C16"),
  "C17": lvl("exploration", "differential monitor: all 8 switch combinations x every operation path vs the untoggled reference fork",
-   "On forks of reached states every switch combination is applied (in one message or field by field in random order) and every path is executed on the switched pool and on another pool; decision and effects must equal the reference outcome AND the needed switches.", "DESIGN.md §4 C17"),
+   "On forks of reached states every switch combination is applied (in one message or field by field in random order) and every path is executed on the switched pool and on another pool; decision and effects must equal the reference outcome AND the needed switches; toggle messages sometimes also restate other configuration fields.", "DESIGN.md §4 C17"),
  "C18": lvl("exploration", "reference-model monitor: u128 arithmetic vs epoch-manager answers on boundary/extreme times and ids",
    "Many epoch-manager instances with random configurations are queried at genesis-1/genesis/boundaries +-1/near the u64 limits and every answer compared with u128 arithmetic; overflowing cases must fail, never wrap; configuration validation incl. non-owner.", "DESIGN.md §4 C18"),
  "C19": lvl("exploration", "reference-model monitor: exact big-integer Curve solution vs the production quote and mint-D functions over a very wide input range",
-   "compute_swap and compute_d_with_pool_info are called at their public boundary on millions of generated pool states and compared with the exact solution of the invariant (band from the statement); outputs never exceed the reserve; failures are counted per cause.", "DESIGN.md §4 C19"),
+   "compute_swap and compute_d_with_pool_info are called at their public boundary on millions of generated pool states and compared with the exact solution of the invariant (band from the statement) for amplifications 1..u64::MAX, 0..18 decimals and reserves up to and beyond the 128-bit normalisation edge; outputs never exceed the reserve; failures are counted per cause.", "DESIGN.md §4 C19"),
  "C20": lvl("fault_enumeration", "state-equality monitor after every rejected message + failure injected at each successive internal chain call of sampled accepted messages of every kind",
    "After every rejected/aborted message of both workloads the whole chain storage must be bit-identical; for sampled accepted messages of every kind each internal chain call (contract entry, reply, bank, token factory) is failed in turn on a fork: the message must be rejected with identical state, except the tolerated blocked refund of a closing farm, whose fork must equal the unblocked run modulo the refund.", "DESIGN.md §4 C20"),
 }
